@@ -1,5 +1,5 @@
 /-
-C07: the equivalence for contents whose variables may be defined by initial assignments.
+C07: the equivalence for contents whose variables and parameters may be defined by initial assignments.
 Core Lean only.
 -/
 import MxlVerif.Lemmas.C07GenV
@@ -10,19 +10,20 @@ structure EnvCtxV (c : Content) (names : List Name) (xs : List Rat) (P : List (N
   nm : Names c
   names_eq : names = omKeys c.vars
   len : names.length = xs.length
-  pkeys : P.map (·.1) = omKeys c.pars
+  pmem : ∀ a, a ∈ P.map (·.1) ↔ a ∈ omKeys c.pars
+  pnd : (P.map (·.1)).Nodup
 
 theorem envRV_lookup_par {c names xs P} (h : EnvCtxV c names xs P) (t : Rat) {a : Name}
     (ha : a ∈ omKeys c.pars) : (envR P names xs t).lookup a = P.lookup a := by
   unfold envR
-  rw [lookup_append_left (by rw [keys_reverse, h.pkeys]; exact ha),
-    lookup_reverse_nodup _ _ (by rw [h.pkeys]; exact h.nm.pNd)]
+  rw [lookup_append_left (by rw [keys_reverse]; exact (h.pmem a).mpr ha),
+    lookup_reverse_nodup _ _ h.pnd]
 
 theorem envRV_lookup_notpar {c names xs P} (h : EnvCtxV c names xs P) (t : Rat) {a : Name}
     (ha : a ∉ omKeys c.pars) :
     (envR P names xs t).lookup a = ((names.zip xs).reverse ++ [("time", t)]).lookup a := by
   unfold envR
-  rw [lookup_append_right (by rw [keys_reverse, h.pkeys]; exact ha)]
+  rw [lookup_append_right (by rw [keys_reverse]; exact fun hm => ha ((h.pmem a).mp hm))]
 
 theorem envRV_lookup_none {c names xs P} (h : EnvCtxV c names xs P) (t : Rat) {a : Name}
     (hp : a ∉ omKeys c.pars) (hv : a ∉ omKeys c.vars) (ht : a ≠ "time") :
@@ -30,6 +31,106 @@ theorem envRV_lookup_none {c names xs P} (h : EnvCtxV c names xs P) (t : Rat) {a
   rw [envRV_lookup_notpar h t hp,
     lookup_append_right (by rw [keys_reverse, keys_zip h.len, h.names_eq]; exact hv)]
   simp [lookup_cons_eq, ht]
+
+/-- the constants the generator writes: keys and values -/
+theorem emitted_facts {c : Content} (hok : OkV c) {order : List Name} {apn' : List Name}
+    {extra : List (Name × Rat)} {dependent : Env}
+    (hond : order.Nodup) (homem : ∀ k, k ∈ order ↔ IsElem c k)
+    (hap0 : ∀ a, a ∈ omKeys c.pars → a ∈ apn')
+    (hap1 : ∀ a, a ∈ apn' → a ∈ omKeys c.pars ∨ (a ∈ order ∧ a ∉ omKeys c.vars ∧ a ∉ omKeys c.pars))
+    (hap2 : ∀ k ∈ order, k ∈ apn' → k ∈ omKeys c.pars ∨ (k ∉ omKeys c.rxns ∧ k ∉ omKeys c.vars ∧
+            ∃ d, c.derived.lookup k = some d ∧ ∀ a ∈ d.args, a ∈ apn'))
+    (hexk : extra.map (·.1) = order.filter fun k => apn'.contains k)
+    (hexl : ∀ a, a ∈ (order.filter fun k => apn'.contains k) → extra.lookup a = dependent.lookup a) :
+    (((omUnion (plainOf c.pars) extra).filter fun kv => !(omKeys c.derived).contains kv.1).map (·.1)).Nodup
+    ∧ (∀ a, a ∈ ((omUnion (plainOf c.pars) extra).filter fun kv => !(omKeys c.derived).contains kv.1).map (·.1)
+        ↔ a ∈ omKeys c.pars)
+    ∧ (∀ a, a ∉ omKeys c.derived →
+        ((omUnion (plainOf c.pars) extra).filter fun kv => !(omKeys c.derived).contains kv.1).lookup a
+          = (omUnion (plainOf c.pars) extra).lookup a)
+    ∧ (∀ a, a ∈ omKeys c.derived →
+        ((omUnion (plainOf c.pars) extra).filter fun kv => !(omKeys c.derived).contains kv.1).lookup a = none)
+    ∧ (∀ a, a ∈ (plainOf c.pars).map (·.1) →
+        (omUnion (plainOf c.pars) extra).lookup a = (plainOf c.pars).lookup a)
+    ∧ (∀ a, a ∈ order → a ∈ omKeys c.pars →
+        a ∉ (plainOf c.pars).map (·.1) ∧ (omUnion (plainOf c.pars) extra).lookup a = dependent.lookup a) := by
+  have hn := hok.names
+  obtain ⟨hkinds, _⟩ := order_kinds hok homem
+  have hplNd : ((plainOf c.pars).map (·.1)).Nodup := keys_plainOf_nodup _ hn.pNd
+  have hU := keys_omUnion_nodup extra (plainOf c.pars) hplNd
+  have hexNd : (extra.map (·.1)).Nodup := by rw [hexk]; exact hond.sublist List.filter_sublist
+  have hex_keys : ∀ a, a ∈ extra.map (·.1) ↔ (a ∈ order ∧ a ∈ apn') := by
+    intro a; rw [hexk, List.mem_filter]; simp
+  -- a parameter that the sort places is defined by an initial assignment
+  have hpar_ia : ∀ a, a ∈ order → a ∈ omKeys c.pars → a ∈ (iaOf c.pars).map (·.1) := by
+    intro a hao hap
+    rcases (homem a).mp hao with h | h | h | h
+    · exact absurd hap (hn.vp a (keys_iaOf_sub _ _ h))
+    · exact h
+    · exact absurd h (hn.pd a hap)
+    · exact absurd h (hn.pr a hap)
+  have h5 : ∀ a, a ∈ (plainOf c.pars).map (·.1) →
+      (omUnion (plainOf c.pars) extra).lookup a = (plainOf c.pars).lookup a := by
+    intro a hpl
+    rw [lookup_omUnion _ _ _ hexNd]
+    have hap := keys_plainOf_sub _ _ hpl
+    have : extra.lookup a = none := by
+      apply lookup_none_of_not_mem
+      intro hm
+      obtain ⟨hao, _⟩ := (hex_keys a).mp hm
+      exact plain_ia_disjoint c.pars a hn.pNd hpl (hpar_ia a hao hap)
+    rw [this]
+  have h6 : ∀ a, a ∈ order → a ∈ omKeys c.pars →
+      a ∉ (plainOf c.pars).map (·.1) ∧ (omUnion (plainOf c.pars) extra).lookup a = dependent.lookup a := by
+    intro a hao hap
+    have hia := hpar_ia a hao hap
+    have hnpl : a ∉ (plainOf c.pars).map (·.1) := fun h => plain_ia_disjoint c.pars a hn.pNd h hia
+    refine ⟨hnpl, ?_⟩
+    rw [lookup_omUnion _ _ _ hexNd, hexl a (List.mem_filter.mpr ⟨hao, by simpa using hap0 a hap⟩)]
+    cases dependent.lookup a with
+    | some v => rfl
+    | none => exact lookup_none_of_not_mem hnpl
+  generalize omUnion (plainOf c.pars) extra = U at hU h5 h6 ⊢
+  have hPl : ∀ a, (U.filter fun kv => !(omKeys c.derived).contains kv.1).lookup a
+      = if !(omKeys c.derived).contains a then U.lookup a else none :=
+    lookup_filter_key (fun a => !(omKeys c.derived).contains a) U
+  have hPk : (U.filter fun kv => !(omKeys c.derived).contains kv.1).map (·.1)
+      = (U.map (·.1)).filter fun a => !(omKeys c.derived).contains a :=
+    keys_filter_key (fun a => !(omKeys c.derived).contains a) U
+  generalize (U.filter fun kv => !(omKeys c.derived).contains kv.1) = P at hPl hPk ⊢
+  refine ⟨?_, ?_, ?_, ?_, ?_, ?_⟩
+  · rw [hPk]; exact hU.1.sublist List.filter_sublist
+  · intro a
+    rw [hPk, List.mem_filter, hU.2 a]
+    constructor
+    · rintro ⟨h | h, hnd⟩
+      · exact keys_plainOf_sub _ _ h
+      · have hnd' : a ∉ omKeys c.derived := by simpa using hnd
+        obtain ⟨hao, haa⟩ := (hex_keys a).mp h
+        rcases hap2 a hao haa with hp | ⟨hnr, _, _⟩
+        · exact hp
+        · rcases hkinds a hao with hv | hp | ⟨_, _, hd | hr⟩
+          · rcases hap1 a haa with hp | ⟨_, hnv, _⟩
+            · exact hp
+            · exact absurd hv hnv
+          · exact hp
+          · exact absurd hd hnd'
+          · exact absurd hr hnr
+    · intro hap
+      refine ⟨?_, by simpa using hn.pd a hap⟩
+      rcases keys_split c.pars a hap with h | h
+      · exact Or.inl h
+      · exact Or.inr ((hex_keys a).mpr ⟨(homem a).mpr (Or.inr (Or.inl h)), hap0 a hap⟩)
+  · intro a hnd
+    rw [hPl]
+    have : (omKeys c.derived).contains a = false := by simpa using hnd
+    simp only [this, Bool.not_false, if_true]
+  · intro a hd
+    rw [hPl]
+    have : (omKeys c.derived).contains a = true := by simpa using hd
+    simp only [this, Bool.not_true, Bool.false_eq_true, if_false]
+  · exact h5
+  · exact h6
 
 theorem equiv_mainV (c : Content) (L : Lang) (t : Rat) (xs : List Rat)
     (hL : L ≠ .jl) (hok : OkV c) (hxs : xs.length = c.vars.length) :
@@ -40,72 +141,49 @@ theorem equiv_mainV (c : Content) (L : Lang) (t : Rat) (xs : List Rat)
     obtain ⟨order, dependent, st, dy, apn, stoich, dst, init, extra, hsort, hE0, hcl, hadd, hinit, hextra,
       hcache⟩ := createCache_ok hcc
     have hn := hok.names
-    have hPk : (plainOf c.pars).map (·.1) = omKeys c.pars := keys_plainOf hok.iaP
     have hVsub : ∀ a ∈ (plainOf c.vars).map (·.1), a ∈ omKeys c.vars := keys_plainOf_sub c.vars
     have hlen : (omKeys c.vars).length = xs.length := by simp [omKeys, hxs]
-    have hctx : EnvCtxV c (omKeys c.vars) xs (plainOf c.pars) := ⟨hn, rfl, hlen, hPk⟩
     obtain ⟨hond, homem⟩ := order_factsV hok hsort
-    have hokind : ∀ k ∈ order, k ∈ (iaOf c.vars).map (·.1) ∨ k ∈ omKeys c.derived ∨ k ∈ omKeys c.rxns :=
-      fun k hk => (homem k).mp hk
-    -- a name of the order is a variable (initial assignment) or a derived / reaction name that is no variable
-    have hord_cases : ∀ k ∈ order, k ∈ omKeys c.vars ∨
-        (k ∉ omKeys c.vars ∧ (k ∈ omKeys c.derived ∨ k ∈ omKeys c.rxns)) := by
-      intro k hk
-      rcases hokind k hk with h | h | h
-      · exact Or.inl (keys_iaOf_sub _ _ h)
-      · exact Or.inr ⟨fun hv => hn.vd k hv h, Or.inl h⟩
-      · exact Or.inr ⟨fun hv => hn.vr k hv h, Or.inr h⟩
-    have hord_np : ∀ k ∈ order, k ∉ omKeys c.pars := by
-      intro k hk hp
-      rcases hord_cases k hk with h | ⟨_, h | h⟩
-      · exact hn.vp k h hp
-      · exact hn.pd k hp h
-      · exact hn.pr k hp h
-    have hord_nt : ∀ k ∈ order, k ≠ "time" := by
-      intro k hk ht
-      rcases hord_cases k hk with h | ⟨_, h | h⟩
-      · exact hn.time_v (ht ▸ h)
-      · exact hn.time_d (ht ▸ h)
-      · exact hn.time_r (ht ▸ h)
-    -- the emitted definitions: the order without the variables
+    have hokind : ∀ k ∈ order, IsElem c k := fun k hk => (homem k).mp hk
+    obtain ⟨hord_cases, hord_nt⟩ := order_kinds hok homem
+    -- the emitted definitions: the order without the variables and the parameters
     have hdefs_eq := defsOf_eq_filter hok order
     have hdE : (defsE c order).map (·.1) = order := (mapM_defOfE hok hokind).2
-    have hdk_sub : ∀ kf ∈ defsOf c order, kf.1 ∈ order ∧ kf.1 ∉ omKeys c.vars := by
+    have hfixed : ∀ k, isFixed c k = true ↔ (k ∈ omKeys c.vars ∨ k ∈ omKeys c.pars) := by
+      intro k; simp [isFixed]
+    have hdk_sub : ∀ kf ∈ defsOf c order, kf.1 ∈ order ∧ kf.1 ∉ omKeys c.vars ∧ kf.1 ∉ omKeys c.pars := by
       intro kf hkf
       rw [hdefs_eq] at hkf
       obtain ⟨h1, h2⟩ := List.mem_filter.mp hkf
-      refine ⟨?_, by simpa using h2⟩
+      have h2' : ¬ (kf.1 ∈ omKeys c.vars ∨ kf.1 ∈ omKeys c.pars) := by
+        rw [← hfixed]; simpa using h2
+      refine ⟨?_, fun h => h2' (Or.inl h), fun h => h2' (Or.inr h)⟩
       rw [← hdE]; exact List.mem_map_of_mem (f := (·.1)) h1
     have hdk_nd : ((defsOf c order).map (·.1)).Nodup := by
       rw [hdefs_eq]
       have hndE : ((defsE c order).map (·.1)).Nodup := by rw [hdE]; exact hond
       exact hndE.sublist (List.Sublist.map _ List.filter_sublist)
-    have hdk_mem : ∀ k ∈ order, k ∉ omKeys c.vars → k ∈ (defsOf c order).map (·.1) := by
-      intro k hk hv
+    have hdk_mem : ∀ k ∈ order, k ∉ omKeys c.vars → k ∉ omKeys c.pars → k ∈ (defsOf c order).map (·.1) := by
+      intro k hk hv hp
       have : k ∈ (defsE c order).map (·.1) := by rw [hdE]; exact hk
       obtain ⟨kf, hkf, hke⟩ := List.mem_map.mp this
       rw [hdefs_eq]
-      exact List.mem_map.mpr ⟨kf, List.mem_filter.mpr ⟨hkf, by simpa [hke] using hv⟩, hke⟩
+      refine List.mem_map.mpr ⟨kf, List.mem_filter.mpr ⟨hkf, ?_⟩, hke⟩
+      have : ¬ isFixed c kf.1 = true := by rw [hfixed, hke]; exact fun h => h.elim hv hp
+      simpa using this
     -- the time-zero pass as sequential evaluation
     rw [evalInOrder_defsE hok hokind, hok.data] at hE0
     -- classification
-    obtain ⟨apn', hcls, hap0, hap1, hap2⟩ := classify_specV c hok.surs order [] [] (omKeys c.pars) hond
-      (fun k hk => ⟨hord_np k hk, hord_np k hk⟩)
-      (fun k _ hv => hn.vr k hv)
-      (fun k hk => by
-        rcases hokind k hk with h | h | h
-        · exact Or.inr (Or.inl (keys_iaOf_sub _ _ h))
-        · exact Or.inr (Or.inr (lookup_some_of_mem_keys h))
-        · exact Or.inl h)
+    obtain ⟨apn', hcls, hap0, hap1, hap2⟩ := classify_order hok hond homem
     rw [hcls] at hcl
-    simp only [List.reverse_nil, List.nil_append, Prod.mk.injEq] at hcl
+    simp only [Prod.mk.injEq] at hcl
     obtain ⟨hst, hdy, hapn⟩ := hcl
     subst hapn
     have hapn_nv : ∀ a ∈ apn', a ∉ omKeys c.vars := by
       intro a ha hv
       rcases hap1 a ha with h | h
       · exact hn.vp a hv h
-      · exact h.2 hv
+      · exact h.2.1 hv
     -- static values the cache keeps: the static names that are no variables
     have hstf : (st.filter fun k => !(omKeys c.vars).contains k) = order.filter fun k => apn'.contains k := by
       rw [← hst, List.filter_filter]
@@ -118,81 +196,118 @@ theorem equiv_mainV (c : Content) (L : Lang) (t : Rat) (xs : List Rat)
     rw [hstf] at hextra
     obtain ⟨hexk, hexl⟩ := mapM_getPairs hextra
     obtain ⟨hinitk, _⟩ := mapM_getPairs hinit
+    -- the constants
+    have hP : emittedPars c cache
+        = (omUnion (plainOf c.pars) extra).filter fun kv => !(omKeys c.derived).contains kv.1 := by
+      rw [hcache]; rfl
+    obtain ⟨hPnd, hPmem, hP_nd, hP_d, hU_plain, hU_ia⟩ :=
+      emitted_facts hok hond homem hap0 hap1 hap2 hexk hexl
+    generalize hPdef : ((omUnion (plainOf c.pars) extra).filter fun kv => !(omKeys c.derived).contains kv.1) = P
+      at hP hPnd hPmem hP_nd hP_d
+    have hctx : EnvCtxV c (omKeys c.vars) xs P := ⟨hn, rfl, hlen, hPmem, hPnd⟩
     -- ===== the run environment succeeds on the emitted definitions
     have hkeysB : ∀ a, (∃ v, (baseEnv (plainOf c.pars) (plainOf c.vars) [] 0).lookup a = some v) →
-        ∃ w, (envR (plainOf c.pars) (omKeys c.vars) xs t).lookup a = some w := by
+        ∃ w, (envR P (omKeys c.vars) xs t).lookup a = some w := by
       intro a ⟨v, hv⟩
       rw [lookup_isSome_iff]
       have hm := lookup_some_mem_keys hv
       simp only [baseEnv, List.reverse_nil, List.nil_append, List.map_cons, List.map_append, List.mem_cons,
-        List.mem_append, List.map_reverse, List.mem_reverse, hPk] at hm
-      simp only [envR, List.map_append, List.map_reverse, List.mem_append, List.mem_reverse, hPk,
+        List.mem_append, List.map_reverse, List.mem_reverse] at hm
+      simp only [envR, List.map_append, List.map_reverse, List.mem_append, List.mem_reverse,
         keys_zip hlen, List.map_cons, List.map_nil, List.mem_singleton]
       rcases hm with h | h | h
       · exact Or.inr (Or.inr h)
       · exact Or.inr (Or.inl (hVsub a h))
-      · exact Or.inl h
-    obtain ⟨erun, herun'⟩ := evalSeq_ok_filter (fun k => !(omKeys c.vars).contains k) hE0 hkeysB (by
+      · exact Or.inl ((hPmem a).mpr (keys_plainOf_sub _ _ h))
+    obtain ⟨erun, herun'⟩ := evalSeq_ok_filter (fun k => !isFixed c k) hE0 hkeysB (by
       intro kf hkf hkeep
-      have hv : kf.1 ∈ omKeys c.vars := by simpa using hkeep
+      have hv : kf.1 ∈ omKeys c.vars ∨ kf.1 ∈ omKeys c.pars := by
+        rw [← hfixed]; simpa using hkeep
       rw [lookup_isSome_iff]
       simp only [envR, List.map_append, List.map_reverse, List.mem_append, List.mem_reverse, keys_zip hlen]
-      exact Or.inr (Or.inl hv))
-    have herun : evalSeq (defsOf c order) (envR (plainOf c.pars) (omKeys c.vars) xs t) = .ok erun := by
+      rcases hv with hv | hv
+      · exact Or.inr (Or.inl hv)
+      · exact Or.inl ((hPmem _).mpr hv))
+    have herun : evalSeq (defsOf c order) (envR P (omKeys c.vars) xs t) = .ok erun := by
       rw [hdefs_eq]; exact herun'
     -- ===== static names agree between the run and the time-zero pass
-    have hdefs_static : ∀ kf ∈ defsE c order, kf.1 ∈ apn' →
-        (!(omKeys c.vars).contains kf.1) = true ∧ ∀ a ∈ kf.2.args, a ∈ apn' := by
-      intro kf hkf hka
-      have hko : kf.1 ∈ order := by rw [← hdE]; exact List.mem_map_of_mem (f := (·.1)) hkf
-      obtain ⟨hnr, hnv, d, hd, hargs⟩ := hap2 kf.1 hko hka
-      refine ⟨by simpa using hnv, ?_⟩
-      simp only [defsE, List.mem_filterMap] at hkf
-      obtain ⟨k, _, hm⟩ := hkf
-      cases hde : defOfE c k with
-      | none => simp [hde] at hm
-      | some f =>
-        simp [hde] at hm; subst hm
-        have : defOfE c k = some d := by
-          simp [defOfE, lookup_none_of_not_mem hnr, hd]
-        rw [this] at hde
-        simp only [Option.some.injEq] at hde
-        intro a ha
-        exact hargs a (hde ▸ ha)
-    have hagree0 : ∀ a, a ∈ apn' → (baseEnv (plainOf c.pars) (plainOf c.vars) [] 0).lookup a
-        = (envR (plainOf c.pars) (omKeys c.vars) xs t).lookup a := by
+    have hbase_par : ∀ a, a ∈ omKeys c.pars →
+        (baseEnv (plainOf c.pars) (plainOf c.vars) [] 0).lookup a = (plainOf c.pars).lookup a := by
+      intro a hp
+      have hat : a ≠ "time" := fun h => hn.time_p (h ▸ hp)
+      have havp : a ∉ (plainOf c.vars).map (·.1) := fun h => hn.vp a (hVsub a h) hp
+      simp only [baseEnv, List.reverse_nil, List.nil_append, lookup_cons_eq, hat, if_false]
+      rw [lookup_append_right (by rw [keys_reverse]; exact havp),
+        lookup_reverse_nodup _ _ (keys_plainOf_nodup _ hn.pNd)]
+    have hstatic : ∀ a, a ∈ apn' → erun.lookup a = dependent.lookup a := by
       intro a ha
-      have hav : a ∉ omKeys c.vars := hapn_nv a ha
-      have havp : a ∉ (plainOf c.vars).map (·.1) := fun h => hav (hVsub a h)
-      rcases hap1 a ha with hp | ho
-      · rw [envRV_lookup_par hctx t hp]
-        have hat : a ≠ "time" := fun h => hn.time_p (h ▸ hp)
-        simp only [baseEnv, List.reverse_nil, List.nil_append, lookup_cons_eq, hat, if_false]
-        rw [lookup_append_right (by rw [keys_reverse]; exact havp),
-          lookup_reverse_nodup _ _ (by rw [hPk]; exact hn.pNd)]
-      · rw [envRV_lookup_none hctx t (hord_np a ho.1) hav (hord_nt a ho.1)]
-        simp only [baseEnv, List.reverse_nil, List.nil_append, lookup_cons_eq, hord_nt a ho.1, if_false]
-        rw [lookup_append_right (by rw [keys_reverse]; exact havp)]
-        exact lookup_none_of_not_mem (by rw [keys_reverse, hPk]; exact hord_np a ho.1)
-    have hstatic : ∀ a, a ∈ apn' → erun.lookup a = dependent.lookup a := fun a ha =>
-      (evalSeq_agree_closed_filter (fun a => a ∈ apn') (fun k => !(omKeys c.vars).contains k)
-        hE0 herun' hdefs_static hagree0 a ha).symm
+      refine (evalSeq_agree_closed_filter2 (fun a => a ∈ apn') (fun k => !isFixed c k) dependent
+        (by rw [hdE]; exact hond) hE0 herun' ?_ ?_ ?_ a ha).symm
+      · -- kept static definitions read static names
+        intro kf hkf hka hkeep
+        have hko : kf.1 ∈ order := by rw [← hdE]; exact List.mem_map_of_mem (f := (·.1)) hkf
+        have hnf : ¬ (kf.1 ∈ omKeys c.vars ∨ kf.1 ∈ omKeys c.pars) := by
+          rw [← hfixed]; simpa using hkeep
+        rcases hap2 kf.1 hko hka with hp | ⟨hnr, hnv, d, hd, hargs⟩
+        · exact absurd (Or.inr hp) hnf
+        · simp only [defsE, List.mem_filterMap] at hkf
+          obtain ⟨k, _, hm⟩ := hkf
+          cases hde : defOfE c k with
+          | none => simp [hde] at hm
+          | some f =>
+            simp [hde] at hm; subst hm
+            have : defOfE c k = some d := by
+              simp [defOfE, lookup_none_of_not_mem hnr, hd]
+            rw [this] at hde
+            simp only [Option.some.injEq] at hde
+            intro a ha
+            exact hargs a (hde ▸ ha)
+      · -- a dropped static name is a parameter defined by an initial assignment
+        intro kf hkf hka hdrop
+        have hko : kf.1 ∈ order := by rw [← hdE]; exact List.mem_map_of_mem (f := (·.1)) hkf
+        have hf : kf.1 ∈ omKeys c.vars ∨ kf.1 ∈ omKeys c.pars := by
+          rw [← hfixed]; simpa using hdrop
+        have hp : kf.1 ∈ omKeys c.pars := hf.resolve_left (hapn_nv _ hka)
+        obtain ⟨hnpl, hUd⟩ := hU_ia kf.1 hko hp
+        refine ⟨?_, ?_⟩
+        · rw [hbase_par _ hp]; exact lookup_none_of_not_mem hnpl
+        · rw [envRV_lookup_par hctx t hp, hP_nd _ (hn.pd _ hp), hUd]
+      · -- the other static names: plain parameters, or defined by a kept definition
+        intro a ha hnot
+        rcases hap1 a ha with hp | ⟨hao, hav, hanp⟩
+        · rw [envRV_lookup_par hctx t hp, hP_nd _ (hn.pd _ hp), hbase_par _ hp]
+          rcases keys_split c.pars a hp with hpl | hia
+          · rw [hU_plain a hpl]
+          · exfalso
+            have hao : a ∈ order := (homem a).mpr (Or.inr (Or.inl hia))
+            have : a ∈ (defsE c order).map (·.1) := by rw [hdE]; exact hao
+            obtain ⟨kf, hkf, hke⟩ := List.mem_map.mp this
+            refine hnot kf hkf ?_ hke
+            have : isFixed c kf.1 = true := by rw [hfixed, hke]; exact Or.inr hp
+            simp [this]
+        · have havp : a ∉ (plainOf c.vars).map (·.1) := fun h => hav (hVsub a h)
+          rw [envRV_lookup_none hctx t hanp hav (hord_nt a hao)]
+          simp only [baseEnv, List.reverse_nil, List.nil_append, lookup_cons_eq, hord_nt a hao, if_false]
+          rw [lookup_append_right (by rw [keys_reverse]; exact havp)]
+          exact lookup_none_of_not_mem (by rw [keys_reverse]; exact fun h => hanp (keys_plainOf_sub _ _ h))
     -- ===== the dynamic pass of `_get_args`
     have hex_keys : ∀ a, a ∈ extra.map (·.1) ↔ (a ∈ order ∧ a ∈ apn') := by
       intro a; rw [hexk, List.mem_filter]; simp
+    have hex_nd : ((omUnion (plainOf c.pars) extra).map (·.1)).Nodup :=
+      (keys_omUnion_nodup extra (plainOf c.pars) (keys_plainOf_nodup _ hn.pNd)).1
+    have hexNd : (extra.map (·.1)).Nodup := by rw [hexk]; exact hond.sublist List.filter_sublist
+    have hrun_np : ∀ a, a ∉ omKeys c.vars → a ≠ "time" →
+        (envR P (omKeys c.vars) xs t).lookup a = P.lookup a := by
+      intro a hav hat
+      by_cases hap : a ∈ omKeys c.pars
+      · exact envRV_lookup_par hctx t hap
+      · rw [envRV_lookup_none hctx t hap hav hat]
+        exact (lookup_none_of_not_mem (fun h => hap ((hPmem a).mp h))).symm
     have hD0 : ∀ a, (∀ kf ∈ defsOf c order, apn'.contains kf.1 = true → kf.1 ≠ a) →
-        (envR (plainOf c.pars) (omKeys c.vars) xs t).lookup a
+        (envR P (omKeys c.vars) xs t).lookup a
           = (("time", t) :: (([] : Env).reverse ++ ((omKeys c.vars).zip xs).reverse
               ++ (omUnion (plainOf c.pars) extra).reverse)).lookup a := by
       intro a hnot
-      have hex_none : extra.lookup a = none := by
-        apply lookup_none_of_not_mem
-        intro hm
-        obtain ⟨hao, haa⟩ := (hex_keys a).mp hm
-        obtain ⟨kf, hkf, hka⟩ := List.mem_map.mp (hdk_mem a hao (hapn_nv a haa))
-        exact hnot kf hkf (by simpa [hka] using haa) hka
-      have hex_nd : ((omUnion (plainOf c.pars) extra).map (·.1)).Nodup :=
-        (keys_omUnion_nodup extra (plainOf c.pars) (by rw [hPk]; exact hn.pNd)).1
       simp only [List.reverse_nil, List.nil_append, lookup_cons_eq]
       by_cases hat : a = "time"
       · subst hat
@@ -206,40 +321,44 @@ theorem equiv_mainV (c : Content) (L : Lang) (t : Rat) (xs : List Rat)
             lookup_append_left (by rw [keys_reverse, keys_zip hlen]; exact hav),
             lookup_append_left (by rw [keys_reverse, keys_zip hlen]; exact hav)]
         · rw [lookup_append_right (by rw [keys_reverse, keys_zip hlen]; exact hav),
-            lookup_reverse_nodup _ _ hex_nd,
-            lookup_omUnion _ _ _ (by rw [hexk]; exact hond.sublist List.filter_sublist), hex_none]
-          by_cases hap : a ∈ omKeys c.pars
-          · rw [envRV_lookup_par hctx t hap]
-          · rw [envRV_lookup_none hctx t hap hav hat]
-            exact (lookup_none_of_not_mem (by rw [hPk]; exact hap)).symm
+            lookup_reverse_nodup _ _ hex_nd, hrun_np a hav hat]
+          by_cases had : a ∈ omKeys c.derived
+          · rw [hP_d a had, lookup_omUnion _ _ _ hexNd]
+            have hex_none : extra.lookup a = none := by
+              apply lookup_none_of_not_mem
+              intro hm
+              obtain ⟨hao, haa⟩ := (hex_keys a).mp hm
+              obtain ⟨kf, hkf, hka⟩ := List.mem_map.mp (hdk_mem a hao hav (fun hp => hn.pd a hp had))
+              exact hnot kf hkf (by simpa [hka] using haa) hka
+            rw [hex_none]
+            exact (lookup_none_of_not_mem (fun h => hn.pd a (keys_plainOf_sub _ _ h) had)).symm
+          · exact hP_nd a had
     have hD1 : ∀ kf ∈ defsOf c order, apn'.contains kf.1 = true →
         (("time", t) :: (([] : Env).reverse ++ ((omKeys c.vars).zip xs).reverse
               ++ (omUnion (plainOf c.pars) extra).reverse)).lookup kf.1 = erun.lookup kf.1 := by
       intro kf hkf hs
-      obtain ⟨hko, hknv⟩ := hdk_sub kf hkf
+      obtain ⟨hko, hknv, hknp⟩ := hdk_sub kf hkf
       have hka : kf.1 ∈ apn' := by simpa using hs
       have hkex : kf.1 ∈ order.filter fun k => apn'.contains k := List.mem_filter.mpr ⟨hko, hs⟩
-      have hex_nd : ((omUnion (plainOf c.pars) extra).map (·.1)).Nodup :=
-        (keys_omUnion_nodup extra (plainOf c.pars) (by rw [hPk]; exact hn.pNd)).1
       simp only [List.reverse_nil, List.nil_append, lookup_cons_eq, hord_nt _ hko, if_false]
       rw [lookup_append_right (by rw [keys_reverse, keys_zip hlen]; exact hknv),
         lookup_reverse_nodup _ _ hex_nd,
-        lookup_omUnion _ _ _ (by rw [hexk]; exact hond.sublist List.filter_sublist),
+        lookup_omUnion _ _ _ hexNd,
         hexl _ hkex, hstatic _ hka]
       cases dependent.lookup kf.1 with
       | some v => rfl
-      | none => exact lookup_none_of_not_mem (by rw [hPk]; exact hord_np _ hko)
+      | none => exact lookup_none_of_not_mem (fun h => hknp (keys_plainOf_sub _ _ h))
     obtain ⟨edyn, hedyn, hfull⟩ := evalSeq_agree_sub (fun k => apn'.contains k) herun hdk_nd
       (fun kf hkf => by
-        obtain ⟨hko, hknv⟩ := hdk_sub kf hkf
-        exact envRV_lookup_none hctx t (hord_np _ hko) hknv (hord_nt _ hko))
+        obtain ⟨hko, hknv, hknp⟩ := hdk_sub kf hkf
+        exact envRV_lookup_none hctx t hknp hknv (hord_nt _ hko))
       hD0 hD1
     -- the dynamic order as definitions
     have hdyd : defsOf c dy = (defsOf c order).filter fun kf => !apn'.contains kf.1 := by
       rw [← hdy, defsOf_filter]
       apply List.filter_congr
       intro kf hkf
-      have hknv : (omKeys c.vars).contains kf.1 = false := by simpa using (hdk_sub kf hkf).2
+      have hknv : (omKeys c.vars).contains kf.1 = false := by simpa using (hdk_sub kf hkf).2.1
       show (!((omKeys c.vars).contains kf.1 || apn'.contains kf.1)) = !apn'.contains kf.1
       rw [hknv]; rfl
     rw [← hdyd] at hedyn
@@ -247,12 +366,11 @@ theorem equiv_mainV (c : Content) (L : Lang) (t : Rat) (xs : List Rat)
       intro k hk
       rw [← hdy] at hk
       obtain ⟨hko, hkp⟩ := List.mem_filter.mp hk
-      have hknv : k ∉ omKeys c.vars := by
-        have hkp' : ¬ k ∈ omKeys c.vars ∧ ¬ k ∈ apn' := by simpa using hkp
-        exact hkp'.1
-      rcases hord_cases k hko with h | ⟨_, h⟩
-      · exact absurd h hknv
+      have hkp' : ¬ k ∈ omKeys c.vars ∧ ¬ k ∈ apn' := by simpa using hkp
+      rcases hord_cases k hko with h | h | ⟨_, _, h⟩
+      · exact absurd h hkp'.1
+      · exact absurd (hap0 k h) hkp'.2
       · exact h
-    exact equiv_tail c L t xs hL hok hxs hcc hadd hinitk hcache hdy_kind herun hedyn hfull
+    exact equiv_tail c L t xs hL hok hxs hcc hadd hinitk hcache hdy_kind hP herun hedyn hfull
 
 end Mxl.C07
